@@ -610,6 +610,31 @@ func RSASignEM(k *RSAPub, d *big.Int, em []byte) []byte {
 	return i2osp(m.Exp(m, d, k.N), k.Size())
 }
 
+// RSASignEMCRT is RSASP1 with the Chinese remainder theorem (RFC 8017 5.1.2, second form) from p, q, d;
+// the result is checked with the public operation (s^e mod n == m) before it is returned. Only faster than
+// RSASignEM; used for shape searches that need hundreds of signatures.
+func RSASignEMCRT(k *RSAPub, d, p, q *big.Int, em []byte) []byte {
+	m := new(big.Int).SetBytes(em)
+	if m.Cmp(k.N) >= 0 {
+		return nil
+	}
+	one := big.NewInt(1)
+	dp := new(big.Int).Mod(d, new(big.Int).Sub(p, one))
+	dq := new(big.Int).Mod(d, new(big.Int).Sub(q, one))
+	qinv := new(big.Int).ModInverse(q, p)
+	s1 := new(big.Int).Exp(new(big.Int).Mod(m, p), dp, p)
+	s2 := new(big.Int).Exp(new(big.Int).Mod(m, q), dq, q)
+	hh := new(big.Int).Sub(s1, s2)
+	hh.Mul(hh, qinv)
+	hh.Mod(hh, p)
+	s := hh.Mul(hh, q)
+	s.Add(s, s2)
+	if new(big.Int).Exp(s, big.NewInt(int64(k.E)), k.N).Cmp(m) != 0 {
+		return nil
+	}
+	return i2osp(s, k.Size())
+}
+
 // RSASignPKCS1 is the (deterministic) RSASSA-PKCS1-v1_5 signature.
 func RSASignPKCS1(k *RSAPub, d *big.Int, hashName string, msg []byte) []byte {
 	em := EMSAPKCS1v15(hashName, msg, k.Size())
